@@ -504,7 +504,7 @@ def rand_loader(rng, depth):
     if k == "C":
         return ("C", [rand_loader(rng, depth - 1) for _ in range(rng.randint(0, 3))])
     return ("X", rng.choice(["/", "/", "::", "", "a", "b/"]),
-            [(rng.choice(["p", "q", "", "sub", "a", ".."]), rand_loader(rng, depth - 1)) for _ in range(rng.randint(0, 3))])
+            [(rng.choice(["p", "q", "", "sub", "a", "..", "p/q", "p::q", "/p"]), rand_loader(rng, depth - 1)) for _ in range(rng.randint(0, 3))])
 
 
 def fs_line(desc, name, cv="p"):
@@ -560,6 +560,60 @@ def run_fs(ctx, jinja2, sb, names, rnd_names):
     for (desc, ld, n, how), ml in zip(todo, out):
         check_one(ctx, jinja2, env, sb, desc, ld, n, ml, how)
     run_mut(ctx, jinja2, sb)
+    run_listed(ctx, jinja2, sb)
+
+
+# ------------------------------------------------------------------------------------------- "has it" as list_templates sees it
+LISTED_SIG = "C28:prefix-containing-delimiter-unreachable"
+
+
+def has_delim_prefix(desc):
+    if desc[0] == "X":
+        return any((desc[1] != "" and desc[1] in p) or has_delim_prefix(l) for p, l in desc[2])
+    if desc[0] == "C":
+        return any(has_delim_prefix(x) for x in desc[1])
+    return False
+
+
+def run_listed(ctx, jinja2, sb):
+    """every name a composed loader LISTS must resolve (compositions over DictLoader leaves; prefixes with and without the
+    delimiter inside)"""
+    env = jinja2.Environment()
+    fixed = [("X", "/", [("a/b", ("D", [("x", 61)]))]),
+             ("X", "/", [("a", ("D", [("b/x", 62)])), ("a/b", ("D", [("x", 63)]))]),
+             ("X", "::", [("p::q", ("D", [("x", 64)]))]),
+             ("C", [("D", []), ("X", "/", [("p/q", ("D", [("x", 65)]))])]),
+             ("X", "/", [("p", ("X", "/", [("q", ("D", [("x", 66)]))]))])]
+
+    def only_dicts(rng, depth):
+        k = rng.choice("DDCX" if depth > 0 else "D")
+        if k == "D":
+            return ("D", [(n, 70 + rng.randint(0, 9)) for n in rng.sample(["a", "b", "sub/a", "x"], rng.randint(0, 3))])
+        if k == "C":
+            return ("C", [only_dicts(rng, depth - 1) for _ in range(rng.randint(1, 3))])
+        d = rng.choice(["/", "::", "-"])
+        return ("X", d, [(p, only_dicts(rng, depth - 1)) for p in rng.sample(["p", "q", "p" + d + "q", "sub"], rng.randint(1, 3))])
+
+    descs = fixed + [only_dicts(ctx.rng, 3) for _ in range(ctx.size(300, 3000))]
+    for desc in descs:
+        loader = build_real(jinja2, sb, desc)
+        try:
+            listed = loader.list_templates()
+        except Exception as e:  # noqa
+            ctx.count("listed_not_listable")
+            continue
+        for name in listed:
+            case = {"kind": "listed", "loader": desc, "name": name}
+            ctx.case(key=("listed", repr(desc), name))
+            ctx.count("listed_name")
+            try:
+                loader.get_source(env, name)
+                ctx.validated()
+            except jinja2.TemplateNotFound:
+                ctx.reject(case, f"list_templates() of {desc} lists {name!r} but get_source raises TemplateNotFound for it",
+                           LISTED_SIG if has_delim_prefix(desc) else None)
+            except Exception as e:  # noqa
+                ctx.reject(case, f"get_source({name!r}) raised {type(e).__name__} on a listed name")
 
 
 # ------------------------------------------------------------------------------------------- histories: loader contents change
@@ -696,6 +750,19 @@ def replay(ctx, data):
             sys.path.remove(sb + "/pkgs")
             for k2 in [k2 for k2 in sys.modules if k2 == "c28pkg" or k2.startswith("c28pkg.")]:
                 del sys.modules[k2]
+            shutil.rmtree(sb, ignore_errors=True)
+    elif k == "listed":
+        sb = make_sandbox(ctx)
+        try:
+            loader = build_real(jinja2, sb, case["loader"])
+            listed = loader.list_templates()
+            try:
+                loader.get_source(jinja2.Environment(), case["name"])
+                print("listed:", case["name"] in listed, "get_source: found")
+            except jinja2.TemplateNotFound:
+                print("listed:", case["name"] in listed, "get_source: TemplateNotFound")
+                ctx.reject(case, "a listed name does not resolve", LISTED_SIG if has_delim_prefix(case["loader"]) else None)
+        finally:
             shutil.rmtree(sb, ignore_errors=True)
     elif k == "mut":
         sb = make_sandbox(ctx)
